@@ -8,26 +8,35 @@
       print_parse : forall s d, from_raw s = OOk ([], d) ->
         exists d', from_raw (display d) = OOk ([], d') /\ doc_eq d' d /\ display d' = display d.
 
-    STATUS.  The direction "print, then parse" is proved COMPLETELY, through all three rungs of
-    DESIGN 5.1/5.4, for every document that satisfies the explicit invariant [printable]
-    (Proofs/DisplayFull.v):
+    STATUS: PROVED IN FULL, for every input, any size and depth ([print_parse] below; it is
+    stated with [pipeline_parse], which is [from_raw]).  Two halves:
 
-      print_parse_partial_printable : forall d, printable d ->
-        exists d', from_raw (display d) = OOk ([], d') /\ doc_eq d' d /\ impl_eq d d' = true
-                   /\ display d' = display d.
+      "print, then parse" (Proofs/DisplayLex, DisplayElem, DisplayDoc, DisplayDtd, DisplayFull):
+        print_parse_partial_printable : forall d, printable d ->
+          exists d', from_raw (display d) = OOk ([], d') /\ doc_eq d' d /\ impl_eq d d' = true
+                     /\ display d' = display d.
+      [printable] is an explicit invariant: lexical validity of every name / text / literal,
+      no adjacent text items, pairwise different attribute names, every entity reference resolves
+      against the document's own declarations, children = Misc* doctype? Misc* element Misc*.
 
-    What is MISSING for [print_parse] itself is the converse of every rung: "every document the
-    parser accepts is printable" ([from_raw s = OOk (r, d) -> printable d]: inversion of each
-    production plus preservation by [build_document]).  Until it is proved, that half is a test:
-    the round-trip oracle of checks/C04.py evaluates the conclusion on the real crates for every
-    accepted document of the generated streams, and the `parse` correspondence ties the model.
+      "whatever is accepted is printable" (Proofs/PegInv, ParseInv, ParseInvElem, ParseInvDtd,
+      ParseInvDoc for the parser; ParseInvBuild, ParseInvBuildDtd for XmlDocument::new):
+        accepted_is_printable : forall s r d, from_raw s = OOk (r, d) -> printable d.
+      It rests on [denote_succ] (every successful run of the PEG interpreter is a derivation of
+      the big-step relation [succ]), inversion of each production of G_xml, and one argument on
+      [denote] itself where the ORDER of a choice matters (an attribute named xmlns / xmlns:p is
+      never returned as a QName: [inv_attribute_canon]).
+
+    The statement is about the Coq model of the two crates; the `parse` correspondence domain ties
+    the model to the compiled code on generated documents, and checks/C04.py evaluates the same
+    conclusion on the real crates.
 
     The model of the code BEFORE repair 92063b3 refutes the statement
     ([print_parse_refuted_pinned], D11: `Display for XmlDeclarationAttList` printed nothing). *)
 From Coq Require Import List NArith Bool.
 From XmlRs Require Import Base.CPred Model.Peg Gen.XmlcharGen Gen.GrammarXmlGen Model.ParseActions Model.Info Model.Display
      Proofs.DisplayEq Proofs.PegLemmas Proofs.DisplayLex Proofs.DisplayElem Proofs.DisplayRun Proofs.DisplayDoc
-     Proofs.DisplayDtd Proofs.DisplayFull.
+     Proofs.DisplayDtd Proofs.DisplayFull Proofs.ParseInvDoc.
 Import ListNotations.
 
 Theorem doc_eq_implies_impl_eq : forall a b, doc_eq a b -> impl_eq a b = true.
@@ -171,6 +180,26 @@ Proof.
   split; [|exact I]. split; [split; reflexivity|]. repeat split; reflexivity.
 Qed.
 
+(** ** the converse half and the full statement *)
+Theorem accepted_is_printable : forall (s r : str) (d : document), from_raw s = OOk (r, d) -> printable d.
+Proof. exact accepted_printable. Qed.
+
+(** C04, full statement *)
+Theorem print_parse : forall (s : str) (d : document), pipeline_parse s = OOk ([], d) ->
+  exists d', pipeline_parse (display d) = OOk ([], d') /\ doc_eq d' d /\ display d' = display d.
+Proof. exact print_parse_full. Qed.
+
+(** also when the parser left input unread, and with the hand-written `==` of xml-info *)
+Corollary print_parse_any_rest : forall (s r : str) (d : document), pipeline_parse s = OOk (r, d) ->
+  exists d', pipeline_parse (display d) = OOk ([], d') /\ doc_eq d' d /\ impl_eq d d' = true /\ display d' = display d.
+Proof. intros s r d H. apply print_parse_printable'. eapply accepted_printable. exact H. Qed.
+
+(** the hypothesis is satisfiable: the D11 document is accepted completely *)
+Example print_parse_nonvacuous : exists d, pipeline_parse d11_doc = OOk ([], d).
+Proof. eexists. vm_compute. reflexivity. Qed.
+
+Print Assumptions print_parse.
+Print Assumptions print_parse_any_rest.
 Print Assumptions doc_eq_implies_impl_eq.
 Print Assumptions print_parse_partial_printable.
 Print Assumptions print_parse_partial_doctype.
